@@ -7,6 +7,7 @@ Case (items separated by ` ; `):
   `cfg MODE NB C SND CLOUD SYNC UP`      MODE sa|fw, NB backends, C max-concurrent-events, SND senders,
                                           CLOUD 0|1, SYNC free|sat|gate|late|gl, UP ok|r1 (forwarder: first attempt 503)
   `st TAG…`                               static tags
+  `ih`                                    the parser runs with ignore-host (no effect on events: they keep every tag and the sender as source)
   `ip IP KIND ID TAG…`                    KIND hit|hitnil|miss|missnil : what the scripted CachedInstances does
   `ev ROUTE IP TITLE TEXT ATTR…`          ROUTE udp|http; ATTR = dN | hX | kX | pN | sX | tN | #X,X,… | o
 Strings are `x`+hex.  Event index = position among the `ev` items.
@@ -68,6 +69,7 @@ def parseAttr (tok : String) : Option Attr :=
 def parseItem (c : Case) (toks : List String) : Option Case :=
   match toks with
   | [] => some c
+  | ["ih"] => some c   -- the parser runs with ignore-host: that setting concerns metrics, an event keeps its tags and its sender
   | "st" :: tags => do
     let ts ← tags.mapM bytesOfTok
     pure { c with static := c.static ++ ts }
